@@ -29,7 +29,17 @@ import t4eval
 import c03_gen as G
 from common import clist, cfloat, cpair, cn, cz, cnat, copt
 
+# every theorem of coq/Properties/C03.v is a member of exactly one family; the
+# families are conjunctions of the member theorems themselves, so one Print
+# Assumptions per family audits all of them
 THEOREMS = [
+    'C03_family_facets',
+    'C03_family_inside',
+    'C03_family_written',
+    'C03_family_references',
+    'C03_family_linked',
+]
+MEMBERS = [
     'C03_box_facet_k',
     'C03_box_inside',
     'C03_box_general_inside',
@@ -95,6 +105,10 @@ THEOREMS = [
     'C03_pot_transform_facet',
     'C03_pot_transform_whole',
     'C03_pot_transform_out_of_range',
+    'C03_expand_macro_den_written',
+    'C03_card_transformation_linked',
+    'C03_written_linked',
+    'C03_bodies_written_linked',
 ]
 TRUSTED = [
     'hand-written model coq/C03/Vec.v + Model.v + Convert.v (modelled, tied by execution '
@@ -931,7 +945,7 @@ def run(res, tier, seed, proofs_ok):
     # TR of the surface card); pot_transform on facet references
     cv_cases, cv_meta = [], []
     pt_cases, pt_meta = [], []
-    step = 1 if not quick else 3
+    step = 1 if not quick else 2
     for idx, (mn, prm, fault, out) in enumerate(meta):
         if out[0] != 'ok' or idx % step:
             continue
@@ -1161,7 +1175,7 @@ def run(res, tier, seed, proofs_ok):
                       found_input=False)
 
     # ---- 3. sweep with the independent oracle ----
-    n_decks = 150 if quick else 2000
+    n_decks = 220 if quick else 2000
     n_random, n_near = (60, 4) if quick else (200, 8)
     pool = [(mn, prm) for mn, prm, fault in inputs if fault is None]
     rng.shuffle(pool)
@@ -1224,7 +1238,7 @@ def run(res, tier, seed, proofs_ok):
                    f'{checked} comparisons')
 
     # ---- 3b. transformed cells referencing one body in several ways ----
-    n_tdecks = 60 if quick else 700
+    n_tdecks = 80 if quick else 700
     tchecked = 0
     tpool = [b for b in pool if n_facets(*b) >= 1]
     # fixed cases first: the RPP of the seeded-change demo under every placement
